@@ -55,7 +55,12 @@ RULE = ("struct shapes of 1-6 fields over bool/int8..int64/int/uint8..uint64/uin
         "trailing blanks, blank-only, tabs and newlines; every case also runs the reader entry points against the bytes "
         "entry points (15% also on the empty / blank document, a drained and a one-byte-at-a-time reader); 8% + 25 fixed "
         "'direct' cases call httpx.Parse on a constructed GET query / POST form / programmatic header map (empty, nil and "
-        "several-value lists); a fixed directed set "
+        "several-value lists); 7% 'history' cases (struct with snake_case / upper-initial json keys; two- and three-step "
+        "histories in the conf driver's process mixing conf.Load* / WithCanonicalKeyFunc calls with option-less "
+        "UnmarshalJson{Bytes,Reader,Map}, UnmarshalYaml{Bytes,Reader}, httpx.ParseJsonBody, each compared with the same call "
+        "in the mapping driver's process); 20% of the fully tagged ordinary cases also go through httpx.Parse as the JSON "
+        "body of a POST/PUT/PATCH/DELETE/OPTIONS request (GET/HEAD without body); round trips use every method; integer "
+        "literals up to 2^64-1 and down to -2^63 are in the YAML and conf-YAML variants; a fixed directed set "
         "(D1/D9 reproductions, tag-option clauses) is part of every run; non-trivial = the document sets at least one "
         "field and is not the directed prefix only; distinct = distinct canonical case JSON")
 TRUSTED = ["encoding/json tokenisation with UseNumber, yaml.v2 scalar resolution, reflect (Set*, Overflow*, StructOf)",
@@ -92,6 +97,8 @@ ASSUMPTIONS = [
     "because GetFormValues drops empty values (c05_roundtrip_form_zero: finding candidate); every other member kind/part/"
     "default combination round-trips and is generated",
     "Marshal model: fmt.Sprint modelled for ints, bools, strings (options=/`string` on other kinds: outside)",
+    "observation: an untagged member of a request struct is claimed by every part of httpx.Parse (path first), so "
+    "Parse fails on it for any method; the JSON-body comparison uses fully tagged shapes",
     "c05_roundtrip (httpc.buildRequest -> httpx.Parse): correspondence only (12% of the cases: request structs with "
     "path/form/header/json parts sent through an httptest server); well-formedness: path/form/header strings non-empty "
     "(an optional form string may be empty), no '/' and no '.'/'..' in path values, header values trimmed, header names "
@@ -532,7 +539,7 @@ def yaml_ok(d):
     if k == "num":
         tok = d[1]
         if num_is_int(tok):
-            return tok != "-0" and -(1 << 63) <= int(tok) < (1 << 63)
+            return tok != "-0" and -(1 << 63) <= int(tok) < (1 << 64)      # yaml.v2: int64, else uint64 (beyond: float)
         return tok in CANON_FLOATS
     if k == "a":
         return all(yaml_ok(x) for x in d[1])
@@ -764,6 +771,12 @@ def directed(rng):
     one({"k": "slice", "e": P("int")}, None, O([("v", S("null"))]), "fromstring")
     one({"k": "slice", "e": P("int")}, None, O([("v", S("[]"))]), "fromstring")
     one({"k": "slice", "e": P("int")}, None, O([("v", S("abc"))]), "fromstring")
+    # integer literals at and beyond the int64 edge: JSON, YAML and conf (JSON + YAML) must agree, never a wrapped number
+    for k in ("int64", "int", "uint64", "f64", "uint", "str"):
+        for tok in ("9223372036854775807", "9223372036854775808", "18446744073709551615", "-9223372036854775808"):
+            one(P(k), None, O([("v", N(tok))]), "yaml-int-edge")
+    one({"k": "slice", "e": P("int64")}, None, O([("v", A([N("9223372036854775808")]))]), "yaml-int-edge")
+    one({"k": "map", "e": P("uint64")}, None, O([("v", O([("k1", N("18446744073709551615"))]))]), "yaml-int-edge")
     return out
 
 
@@ -960,7 +973,8 @@ def rt_case(rng):
         vs.append(v)
     if not fs:
         return rt_case(rng)
-    method = rng.choice(["POST", "PUT", "PATCH"]) if njson else rng.choice(["GET", "POST", "DELETE"])
+    # every method that may carry a body carries the JSON part; GET / HEAD travel without one
+    method = rng.choice(["POST", "PUT", "PATCH", "DELETE", "OPTIONS"]) if njson else rng.choice(["GET", "HEAD", "POST", "DELETE", "OPTIONS", "PUT", "PATCH"])
     c = mkcase(rng, struct([]), O([]), ["roundtrip"], with_yaml=False, with_conf=False)
     c.update({"rt": True, "rt_shape": struct(fs), "value": ["st", vs], "method": method, "pattern": "/" + "/".join(segs)})
     return c
@@ -1069,6 +1083,53 @@ def direct_case(rng):
     return c
 
 
+# ----------------------------------------------------------------------------- histories: no state leaks between calls
+HIST_KEYS = ["user_name", "UserName", "max_conns", "ID", "node_id", "Port", "log_level", "X1", "Retry_Count", "dbHost"]
+OPT_SHAPE = None
+OPT_EXPECT = {"r": "ok", "v": ["st", [["s", "x"], ["i", "7"]]]}
+OPT_TEXT = {"conf-json": '{"user_name":"x","MaxConns":7}', "conf-yaml": "user_name: x\nMaxConns: 7\n",
+            "map-canon": '{"userName":"x","maxConns":7}'}
+
+
+def opt_shape():
+    return struct([field("U", "userName", P("str")), field("M", "maxConns", P("int"), mkopts(default="3"))])
+
+
+def hist_case(rng):
+    """a struct whose json keys are snake_case / upper-initial, unmarshalled by option-less entry points after and
+    before a call WITH options in the same process; reference = the same call in the mapping driver's process"""
+    keys = list(HIST_KEYS)
+    rng.shuffle(keys)
+    shape = gen_struct(rng, 1, keys=keys)
+    doc = gen_obj(rng, shape, "good" if rng.random() < 0.75 else "mixed")
+    c = mkcase(rng, shape, doc, ["history"], with_conf=False)
+    plain = ["json-bytes", "json-reader", "json-map", "parse-body"] + (["yaml-bytes", "yaml-reader"] if c["yaml"] else [])
+    hist = []
+    for _ in range(2):
+        op, pl = rng.choice(list(OPT_TEXT)), rng.choice(plain)
+        ost = {"op": op, "shape": opt_shape(), "text": OPT_TEXT[op]}
+        if rng.random() < 0.4:       # the optioned call on the SAME struct and keys (its own outcome is not compared)
+            ost = {"op": rng.choice(["conf-json", "map-canon"]), "shape": shape, "text": c["json"], "ignore": True}
+        pst = {"op": pl, "shape": shape, "text": c["yaml"] if pl.startswith("yaml") else c["json"]}
+        hist.append([ost, pst] if rng.random() < 0.5 else [pst, ost, pst])
+    c["hist"] = hist
+    return c
+
+
+def hist_pairs(case, obs):
+    """(reference, observed) for every step of every history"""
+    out = []
+    for h, hr in zip(case.get("hist") or [], obs.get("hist") or []):
+        for st, r in zip(h, hr):
+            if st.get("ignore"):
+                continue
+            if st["op"] in OPT_TEXT:
+                out.append((st["op"], OPT_EXPECT, r))
+            else:
+                out.append((st["op"], obs["y"] if st["op"].startswith("yaml") else obs["j"], r))
+    return out
+
+
 # ----------------------------------------------------------------------------- direct Marshal (lib/mapping/marshaler.go)
 def marshal_case(rng):
     """a request-like struct value through mapping.Marshal; 30% carry one member that validation must reject"""
@@ -1144,7 +1205,8 @@ def numstr_cases(rng):
 FLOAT_TOKENS = ["39.9041999", "0.123456789012", "1234567.891", "1e-7", "9007199254740993.0", "9007199254740993", "0.1", "0.3",
                 "16777217", "16777216.5", "3.4028234663852886e38", "3.4028235677973366e38", "1e38", "1e39", "1e308", "1e309", "1e400",
                 "5e-324", "1e-400", "2.2250738585072014e-308", "1.17549435e-38", "1e-46", "123456789.123456789", "-0.0", "0.0",
-                "100", "1e22", "1e23", "4.35", "2.675", "1.0000001", "8.41e21", "-39.9041999", "6.02214076e23"]
+                "9223372036854775807", "9223372036854775808", "18446744073709551615", "18446744073709551616",
+                "-9223372036854775808", "-9223372036854775809", "100", "1e22", "1e23", "4.35", "2.675", "1.0000001", "8.41e21", "-39.9041999", "6.02214076e23"]
 # float32 is reached through float64 (json.Number.Float64 / yaml float64 -> SetFloat): a token within half a float64 ulp
 # of a float32 midpoint is rounded twice (finding; c05_float32_double_rounding_witness) -- kept out of the stream
 FLOAT32_DOUBLE_ROUNDING = ["1.0000000596046447753906250000001"]
@@ -1271,12 +1333,20 @@ def generate(rng, tier, n):
         if r0 < 0.50:
             cases.append(direct_case(rng))
             continue
+        if r0 < 0.57:
+            cases.append(hist_case(rng))
+            continue
         shape = gen_struct(rng, depth)
         r = rng.random()
         mode = "good" if r < 0.7 else "mixed"
         doc = gen_obj(rng, shape, mode)
         cases.append(mkcase(rng, shape, doc, [mode]))
         cases[-1]["readers"] = rng.random() < 0.15        # extra reader situations: empty / blank / drained / one byte
+        # the document as the JSON body of a request, any method (an untagged member belongs to every part of a request:
+        # httpx.Parse then demands it from the path first -- not a json member, so only fully tagged shapes)
+        if rng.random() < 0.2 and all(f["tag"] for f in flat_fields(shape)):
+            empty = not doc[1]
+            cases[-1]["jsonbody"] = rng.choice(["GET", "HEAD"] if empty and rng.random() < 0.5 else ["POST", "PUT", "PATCH", "DELETE", "OPTIONS"])
     return cases
 
 
@@ -1287,7 +1357,7 @@ def search(rng, problems):
 def drive(cases, tier):
     m_in = [{"shape": c["shape"], "json": c["json"], "yaml": c["yaml"], "strmode": bool(c.get("strmode")),
              "float": c.get("float", ""), "marshal": c.get("marshal"), "readers": bool(c.get("readers"))} for c in cases]
-    c_in = [{"shape": c["shape"], "conf": c["conf"], "cyaml": c.get("cyaml", ""), "keys": c["keys"]} for c in cases]
+    c_in = [{"shape": c["shape"], "conf": c["conf"], "cyaml": c.get("cyaml", ""), "keys": c["keys"], "hist": c.get("hist") or []} for c in cases]
     mo, log1 = run_driver("./lib/mapping", m_in, name="C05m_" + tier, timeout=DRIVER_TIMEOUT)
     if mo is None:
         return None, log1
@@ -1295,7 +1365,10 @@ def drive(cases, tier):
     if co is None:
         return None, log2
     r_in = [{"rt": True, "shape": c["rt_shape"], "value": c["value"], "method": c["method"], "pattern": c["pattern"]}
-            if c.get("rt") else ({"direct": c["direct"], "shape": c["direct_shape"]} if c.get("direct") else {"rt": False}) for c in cases]
+            if c.get("rt") else ({"direct": c["direct"], "shape": c["direct_shape"]} if c.get("direct") else
+                                 ({"direct": {"kind": "jsonbody", "method": c["jsonbody"],
+                                              "body": "" if c["jsonbody"] in ("GET", "HEAD") else c["json"]}, "shape": c["shape"]}
+                                  if c.get("jsonbody") else {"rt": False})) for c in cases]
     ro, log3 = run_driver("./api/httpc", r_in, name="C05r_" + tier, timeout=DRIVER_TIMEOUT)
     if ro is None:
         return None, log3
@@ -1307,7 +1380,7 @@ def drive(cases, tier):
             return None, "driver error (marshal): %r" % (a["m"],)
         obs.append({"j": a["j"], "y": a.get("y"), "c": b.get("c"), "cy": b.get("cy"), "camel": b["camel"],
                     "rt": r if (r and "d" not in r) else None,
-                    "s": a.get("s"), "f": a.get("f"), "m": a.get("m"), "rd": a.get("rd"), "d": (r or {}).get("d")})
+                    "s": a.get("s"), "f": a.get("f"), "m": a.get("m"), "rd": a.get("rd"), "d": (r or {}).get("d"), "hist": b.get("hist")})
     # known findings: which single unenforced clause (if any) is the sole reason spec_ok fails -- decided in Coq
     idx = [i for i, c in enumerate(cases) if c["label"][0] == "known"]
     if idx:
@@ -1526,7 +1599,11 @@ def encode(case, obs):
         else:
             mo = "MErr" if m["r"] == "err" else "MPanic"
         ma = cpair(clist(mfs), clist([c_val(v) for v in case["marshal"]["value"][1]]), mo)
-    rd = clist([cpair(c_obs(row[1]), c_obs(row[2])) for row in (obs.get("rd") or [])])
+    prs = [(row[1], row[2]) for row in (obs.get("rd") or [])]
+    prs += [(ref, got) for _, ref, got in hist_pairs(case, obs)]
+    if case.get("jsonbody") and obs.get("d") is not None:
+        prs.append((obs["j"], obs["d"]))
+    rd = clist([cpair(c_obs(a), c_obs(b)) for a, b in prs])
     di = None
     if case.get("direct") and obs.get("d") is not None:
         d = case["direct"]
@@ -1574,7 +1651,7 @@ def bucket(case, obs):
         dfl = sum(1 for f in case["rt_shape"]["f"] if f["o"].get("default") is not None)
         if zeros:
             return ["stream:roundtrip", "rt-zero-members", "rt-build:" + r.get("build", {}).get("r", "?"), "rt-parse:" + r.get("rt", {}).get("r", "none")] + (["rt-default-members"] if dfl else [])
-        out = ["stream:roundtrip", "rt-build:" + r.get("build", {}).get("r", "?"), "rt-parse:" + r.get("rt", {}).get("r", "none")]
+        out = ["stream:roundtrip", "rt-method:%s%s" % (case["method"], "+json" if any(f["tag"].startswith("json") for f in case["rt_shape"]["f"]) else ""), "rt-build:" + r.get("build", {}).get("r", "?"), "rt-parse:" + r.get("rt", {}).get("r", "none")]
         for f in case["rt_shape"]["f"]:
             out.append("rt-part:" + f["tag"].split(":")[0])
         return out
@@ -1593,6 +1670,10 @@ def bucket(case, obs):
         out.append("directed:" + case["label"][1])
     if case.get("readers"):
         out.append("readers:empty/blank/drained/onebyte")
+    if case.get("jsonbody"):
+        out.append("jsonbody:" + case["jsonbody"])
+    for op, _, got in hist_pairs(case, obs):
+        out.append("hist-step:" + op)
     kinds = set()
 
     def walk(t):
@@ -1619,6 +1700,13 @@ def explain(case, obs):
         return ("httpx.Parse on a constructed %s request %s: a form value did not arrive unchanged / did not count as present, "
                 "or a header map with an empty / nil / multiple value list was not handled (error or slice): %s"
                 % (case["direct"]["kind"], json.dumps(case["direct"]["pairs"]), json.dumps(obs["d"])[:400]))
+    for op, ref, got in hist_pairs(case, obs):
+        if ref.get("r") != got.get("r") or ref.get("v") != got.get("v"):
+            return ("state leak between calls: '%s' inside the history %s gives %s, the same call alone gives %s (document %s)"
+                    % (op, json.dumps([[st["op"] for st in h] for h in case["hist"]]), json.dumps(got)[:200], json.dumps(ref)[:200], case["json"]))
+    if case.get("jsonbody") and obs.get("d") is not None and (obs["d"].get("r") != obs["j"].get("r") or obs["d"].get("v") != obs["j"].get("v")):
+        return ("httpx.Parse of a %s request with JSON body %s gives %s; mapping.UnmarshalJsonBytes of that body gives %s"
+                % (case["jsonbody"], case["json"], json.dumps(obs["d"])[:200], json.dumps(obs["j"])[:200]))
     for row in obs.get("rd") or []:
         if row[1].get("r") != row[2].get("r") or row[1].get("v") != row[2].get("v"):
             return ("reader entry point differs from the bytes entry point on '%s' (document %s): bytes %s, reader %s"
